@@ -553,7 +553,10 @@ class RefModel:
             elif on and nD and run_end[k] is not None and (run_end[k] - k - 1) < nD:
                 j = run_end[k] - k - 1
                 lo_k, hi_k, in_shut = DL[j] * g.dt[t], DU[j] * g.dt[t], True
-            hi_k = min(hi_k, hi[t] * g.dt[t])   # a profile never lifts the output above the maximum capacity of the step
+            if not (lenient and is_chp and (in_start or in_shut)):
+                # a profile never lifts the output above the maximum capacity of the step - except, under the lenient reading
+                # ("profiles take precedence"), the VIRTUAL output of a CHP, whose power and heat stay within their own bounds
+                hi_k = min(hi_k, hi[t] * g.dt[t])
             p = lp.var(0.0, hi[t] * g.dt[t] if on else 0.0)
             v = {p: 1.0}
             self.aux[name]["p"][t] = p
